@@ -67,7 +67,7 @@ def limit_df(df, fs, start=None, stop=None, reset_indices=True):
     # Shift sample indices to start at 0
     if reset_indices:
         for col in [col for col in df.columns if col.startswith('sample_')]:
-            df[col] = df[col] - int(fs * start)
+            df[col] = df[col] - int(round(fs * start))
 
     return df
 
